@@ -128,6 +128,17 @@ pub fn shapes(set: &[RouteSpec]) -> Vec<(String, AppDesc)> {
             }
             push(format!("mount-one{i}"), app(items));
         }
+        // mount-root(i): only route i lives in an application mounted at "/" - every level of its path that it shares with the
+        // other routes is united below the mount point (mount-one unites one level less)
+        for (i, r) in set.iter().enumerate() {
+            if r.segs.is_empty() { continue }
+            let mut items = vec![];
+            for (j, o) in set.iter().enumerate() {
+                if i == j { items.push(ItemDesc::Mount { prefix: "/".into(), app: app(vec![route_item(&r.segs, 0, &r.methods)]) }); }
+                else { items.push(route_item(&o.segs, 0, &o.methods)) }
+            }
+            push(format!("mount-root{i}"), app(items));
+        }
     }
     out
 }
@@ -287,10 +298,13 @@ pub fn check_set(ctx: &mut Ctx, set: &[RouteSpec], all_orders: bool, only: Optio
     let table = table_of(set);
     let mut variants: Vec<Variant> = vec![];
     for (name, desc) in shapes(set) {
+        let mut accepted: Option<(usize, AppDesc)> = None;
+        let mut refused: Option<(usize, AppDesc, String)> = None;
         for (oi, d) in orders(&desc, all_orders).into_iter().enumerate() {
             match appgen::build(&d) {
-                Ok(router) => { ctx.states += 1; variants.push(Variant { shape: name.clone(), order: oi, desc: d, router }) }
+                Ok(router) => { ctx.states += 1; if accepted.is_none() { accepted = Some((oi, d.clone())) } variants.push(Variant { shape: name.clone(), order: oi, desc: d, router }) }
                 Err(p) => {
+                    if refused.is_none() { refused = Some((oi, d.clone(), p.clone())) }
                     if name == "flat" && oi == 0 {
                         // the framework rejects this route set altogether: outside the quantifier
                         ctx.skip();
@@ -305,6 +319,12 @@ pub fn check_set(ctx: &mut Ctx, set: &[RouteSpec], all_orders: bool, only: Optio
                 }
             }
         }
+        // "The outcome does not depend on the order in which routes were registered": the same routing items must not be an
+        // application in one order and a registration failure in another
+        if only.is_none() { if let (Some((ao, a)), Some((ro, r, panic))) = (&accepted, &refused) {
+            ctx.violation(&format!("C01/order-dependence/registration/{}", name.trim_end_matches(|c: char| c.is_ascii_digit())), true,
+                || json!({"set": set_json(set), "shape": name, "accepted_order": ao, "accepted_app": a, "refused_order": ro, "refused_app": r, "panic": panic}));
+        } }
     }
     if variants.is_empty() { return }
     let deep = set.iter().any(|r| r.segs.len() >= 3);
@@ -417,6 +437,20 @@ pub fn run(ctx: &mut Ctx) {
             }
         }
     }
+    // pairs of depth-3 routes that share their first two segments (two united levels below a mount at "/" or at the first segment):
+    // in the quick tier too (the plans above only have single depth-3 routes there)
+    if quick {
+        for s1 in SEGS { for s2 in SEGS { for (xi, x) in SEGS.iter().enumerate() { for y in &SEGS[xi + 1..] {
+            for ms in [(0usize, 0usize), (0, 1), (2, 2)] {
+                let set = vec![RouteSpec { segs: vec![s1.to_string(), s2.to_string(), x.to_string()], methods: msets[ms.0].clone() },
+                               RouteSpec { segs: vec![s1.to_string(), s2.to_string(), y.to_string()], methods: msets[ms.1].clone() }];
+                let key: Vec<_> = set.iter().map(|r| (r.segs.clone(), r.methods.clone())).collect();
+                if !done_sets.insert(key) { continue }
+                if !ctx.mine() { continue }
+                check_set(ctx, &set, false, None);
+            }
+        } } } }
+    }
     // single-route applications with every non-empty subset of the five registrable methods
     let five = ["GET", "PUT", "POST", "PATCH", "DELETE"];
     for route in all_routes(if quick { 1 } else { 2 }) {
@@ -428,7 +462,7 @@ pub fn run(ctx: &mut Ctx) {
         }
     }
     ctx.extra.insert("rule".into(), json!("case = (route set + method sets, declaration shape, registration order, request); configurations are built by the real registration/finalization code, requests go through the real Request::read / Router::handle / Response::send; non-trivial = the route set has a param route or more than one route; collision = a request segment is a strict byte extension or a strict prefix of a static pattern at the same position (the byte-prefix shortcut of the radix matcher)"));
-    ctx.extra.insert("bounds".into(), json!({"segments": SEGS, "plans(depth,set size)": if quick { json!([[2,1],[2,2],[3,1]]) } else { json!([[3,1],[3,2],[2,3]]) }, "method_sets": ["GET","POST","GET+POST", "all 31 subsets on single-route apps"], "thinning": "pairs of deep routes: method-set assignments equal or {one method, both methods}; two depth-3 routes only when their first segments can meet", "shapes": ["flat","split","mount1","mount2","nested","inline","mount-one(i)"], "orders": if quick { "all permutations up to 3 items, 3 orders beyond" } else { "all permutations up to 4 items" },
+    ctx.extra.insert("bounds".into(), json!({"segments": SEGS, "plans(depth,set size)": if quick { json!([[2,1],[2,2],[3,1]]) } else { json!([[3,1],[3,2],[2,3]]) }, "method_sets": ["GET","POST","GET+POST", "all 31 subsets on single-route apps"], "thinning": "pairs of deep routes: method-set assignments equal or {one method, both methods}; two depth-3 routes only when their first segments can meet", "shapes": ["flat","split","mount1","mount2","nested","split-mount","inline","mount-one(i)","mount-root(i)"], "quick_extra": "all pairs of depth-3 routes sharing their first two segments", "orders": if quick { "all permutations up to 3 items, 3 orders beyond" } else { "all permutations up to 4 items" },
         "requests": "route sets of depth <=2: all paths of depth <= max+1 over the per-set segment alphabet x trailing-slash variants x 7 methods; sets containing a depth-3 route: every route instance (x 5 methods), all its single-segment mutations, one segment dropped / appended (x GET, POST, HEAD)"}));
     ctx.traces_validated = ctx.transitions;
 }
